@@ -24,11 +24,11 @@ def run(ctx):
     if ctx.quick:
         closure(ctx, narrow, "n3", 1, 3, props)
         closure(ctx, wide, "w2", 4, 2, props)
-        steps, ml = 2000, 24
+        steps, ml = 2500, 120
     else:
         closure(ctx, narrow, "n4", 1, 4, props)
         closure(ctx, wide, "w3", 4, 3, props)
-        steps, ml = 15000, 200
+        steps, ml = 15000, 400
     impl_phase(ctx, "rand-n", narrow, ["random", ctx.seed, steps, 2], [ml, 1], "TraceStr", LT, consts(1), props)
     impl_phase(ctx, "rand-w", wide, ["random", ctx.seed + 1, steps, 2], [ml, 1], "TraceStr", LT, consts(4), props)
     ctx.assumptions += [
